@@ -179,13 +179,25 @@ func (g *Gen) Pick(q, t int) int {
 	return t
 }
 
-// Share returns this shard's share of a total of n random cases.
+// Share returns this shard's share of a total of n random cases. In the 386 build (32-bit target,
+// run in addition to the native build) random classes are scaled to a quarter.
 func (g *Gen) Share(n int) int {
+	if g.Build == "386" && n > 4 {
+		n = (n + 3) / 4
+	}
 	s := n / g.NShards
 	if g.Shard < n%g.NShards {
 		s++
 	}
 	return s
+}
+
+// Scaled returns n, or a quarter of it in the 386 build (for repetition counts of enumerated loops).
+func (g *Gen) Scaled(n int) int {
+	if g.Build == "386" && n > 4 {
+		return (n + 3) / 4
+	}
+	return n
 }
 
 // ShareOf is Share(Pick(q, t)).
